@@ -170,7 +170,7 @@ func cliModel(bin, arg0 string, argv []string, fs *simos.FS, stdin []byte) (e Ex
 	f := parseArgv(argv)
 	fail := func(why string) Expect { return Expect{Defined: true, Status: 2, Why: why} }
 	if f.help {
-		return Expect{Defined: true, Status: 0, Why: "-h prints usage"}
+		return Expect{Defined: true, Status: 0, StdoutAny: true, Why: "-h prints usage"}
 	}
 	if f.err != "" {
 		return fail("flag error: " + f.err)
